@@ -41,6 +41,7 @@ fn strat(ctx: &Ctx) -> impl Strategy<Value = Workload> + use<> {
             avoid,
             avoid_drop,
             allow_reopen: false,
+            overlap_deletes: false,
         };
         gen_workload(&mut Tape::new(&wt), &p, disk, choices)
     })
